@@ -553,10 +553,10 @@ Example compare_unpack_mapping_is_user_error :
   compile toy_mangle (HExpr [sym [61]; x_; x_; HExpr [HSym s_unpack_mapping; x_]]) = CUser.
 Proof. vm_compute. reflexivity. Qed.
 
-(* (chainc x): Compare without comparators *)
-Example refuted_chainc_single :
-  exists e, compile toy_mangle (HExpr [sym [99;104;97;105;110;99]; x_]) = COk e /\ validate e = false.
-Proof. eexists. split; vm_compute; reflexivity. Qed.
+(* (chainc x): rejected by the grammar oneplus(SYM + FORM) (fix aeaad9f; it used to compile to a Compare without comparators) *)
+Example chainc_single_is_user_error :
+  compile toy_mangle (HExpr [sym [99;104;97;105;110;99]; x_]) = CUser.
+Proof. vm_compute. reflexivity. Qed.
 
 (* {x #** x x}: an even number of collected entries, but the None marker of the dict unpacking lands among the values *)
 Example refuted_dict_unpack_misaligned :
